@@ -3,12 +3,16 @@
 usage: recheck.py C33 C34 ...   (prints only deviations from the recorded expectation)"""
 import json, os, subprocess, sys, glob
 here = os.path.dirname(os.path.dirname(os.path.abspath(__file__)))
-props = sys.argv[1:]
+props = [p for a in sys.argv[1:] for p in a.split(",") if p]
+if not props:
+    print(__doc__); sys.exit(2)
+selected = 0
 bad = 0
 corpus = json.load(open(os.path.join(here, "mutants", "corpus.json")))
 for e in corpus:
     if e["prop"] not in props:
         continue
+    selected += 1
     env = dict(os.environ, MUT_KIND=e["kind"], MUT_NOSAVE="1")
     r = subprocess.run(["python3", os.path.join(here, "tools", "mut.py"), e["prop"], e["file"], e["old"], e["new"]], capture_output=True, text=True, env=env)
     got = r.stdout.strip().splitlines()[-1]
@@ -21,6 +25,7 @@ for d in sorted(glob.glob(os.path.join(here, "seeded", "*"))):
     prop = name.split("-")[0]
     if prop not in props:
         continue
+    selected += 1
     meta = json.load(open(os.path.join(d, "meta.json")))
     want = sorted(meta.get("verification", {}).get("caught_by") or [])
     patch = os.path.join(d, "patch_rebased.diff") if os.path.exists(os.path.join(d, "patch_rebased.diff")) else os.path.join(d, "patch.diff")
@@ -44,5 +49,7 @@ for d in sorted(glob.glob(os.path.join(here, "seeded", "*"))):
     if sorted(got) != want:
         bad += 1
         print("SEED %s: recorded caught_by=%s now=%s" % (name, want, got))
-print("recheck %s: %d deviation(s)" % (",".join(props), bad))
+print("recheck %s: %d case(s) replayed, %d deviation(s)" % (",".join(props), selected, bad))
+if selected == 0:
+    print("nothing selected: unknown property ids?"); sys.exit(2)
 sys.exit(1 if bad else 0)
